@@ -4,6 +4,7 @@ import (
 	"fmt"
 	"go/ast"
 	"go/constant"
+	"go/token"
 	"go/types"
 	"sort"
 	"strings"
@@ -38,6 +39,7 @@ var specFamily = map[string]string{"VBITeletext": "Teletext"}
 type sel struct {
 	field  *types.Var
 	callee *types.Func
+	inline bool // parse side: the field is assigned a composite literal of its own type, written out in the dispatcher
 	call   *ast.CallExpr
 	argIdx int // index of the argument carrying the field (calc/write); -1 for parse
 	n      int // number of (field, callee) selections reached; must be 1
@@ -118,6 +120,21 @@ func computeDispatch(p *load.Program) (*dispatchTable, error) {
 								if c == nil {
 									s.n++
 									s.all = append(s.all, f.Name()+"/<no call>")
+									if s.n == 1 {
+										s.field = f
+										// &T{…} with T the field's own struct type: the parser written out in place
+										if len(as.Rhs) == 1 {
+											if u, isU := unparen(as.Rhs[0]).(*ast.UnaryExpr); isU && u.Op == token.AND {
+												if cl, isCL := unparen(u.X).(*ast.CompositeLit); isCL {
+													if tv, okT := p.Info.Types[cl]; okT {
+														if pt, isP := f.Type().(*types.Pointer); isP && types.Identical(pt.Elem(), tv.Type) {
+															s.inline = true
+														}
+													}
+												}
+											}
+										}
+									}
 									continue
 								}
 								record(f, c, -1)
@@ -205,8 +222,15 @@ func (dt *dispatchTable) checkTag(p *load.Program, tag int, wantField string, ty
 			bad = append(bad, fmt.Sprintf("%s: %s selects %d field/callee pairs %v (want exactly one)", h, e.name, s.n, s.all))
 			continue
 		}
+		if s.field == nil {
+			bad = append(bad, fmt.Sprintf("%s: %s selects no field", h, e.name))
+			continue
+		}
 		if s.field.Name() != wantField {
 			bad = append(bad, fmt.Sprintf("%s: %s selects field %s, want %s", h, e.name, s.field.Name(), wantField))
+		}
+		if s.callee == nil && s.inline && i == 0 {
+			continue // the field is built in place from a literal of its own type: nothing to compare a callee with
 		}
 		if s.callee == nil {
 			bad = append(bad, fmt.Sprintf("%s: %s calls a dynamic function", h, e.name))
